@@ -1192,6 +1192,20 @@ fn read_all(sc: &Scenario) -> Result<(), String> {
     Ok(())
 }
 
+/// As `read_all`, but through `to_indexed_checked()`: the index is compared with the pack files while it is loaded, packs that are
+/// not (or wrongly) listed get their header read (`index_checked_from_collector`) — the in-memory form of "rebuild the index from
+/// the packs".  A pure read: nothing may be written.
+fn read_all_checked(sc: &Scenario) -> Result<(), String> {
+    let repo = sc.h.open_nocache().map_err(|e| errkind(&e))?.to_indexed_checked().map_err(|_| "oracle-fail:to-indexed-checked-fails".to_string())?;
+    for (s, want) in &sc.snaps {
+        let got = repo::read_back(&repo, s).map_err(|_| "oracle-fail:snapshot-unreadable-with-checked-index".to_string())?;
+        if &got != want {
+            return Err("oracle-fail:snapshot-content-with-checked-index".into());
+        }
+    }
+    Ok(())
+}
+
 fn exec_repo(variant: &str, seed: u64) -> String {
     let mut rng = Rng::new(seed);
     let sc = match build(&mut rng, variant) {
@@ -1357,13 +1371,12 @@ fn take_pack_reads(h: &RepoHandle) -> Vec<repo::PRead> {
 /// makes) pass `cacheable = false` — for a DATA pack anything else sends the read to the hot part of a hot/cold repository,
 /// which holds no data pack (property failure); for a tree pack it is only a deviation from the model (`differs:`).
 fn header_reads_rule(reads: &[repo::PRead], types: &BTreeMap<Id, bool>) -> Result<(), String> {
-    for r in reads {
-        if r.cacheable {
-            return Err(match types.get(&r.id) {
-                Some(true) => "differs:tree-pack-header-read-cacheable".to_string(),
-                _ => "oracle-fail:data-pack-header-read-cacheable".to_string(),
-            });
-        }
+    // a pack the intact index does not know counts as a data pack
+    if reads.iter().any(|r| r.cacheable && types.get(&r.id) != Some(&true)) {
+        return Err("oracle-fail:data-pack-header-read-cacheable".into());
+    }
+    if reads.iter().any(|r| r.cacheable) {
+        return Err("differs:tree-pack-header-read-cacheable".into());
     }
     Ok(())
 }
@@ -1398,7 +1411,7 @@ fn stores_diff(a: &(repo::Store, Option<repo::Store>), b: &(repo::Store, Option<
         }
         None
     };
-    if let Some(d) = part(&a.0, &b.0, "cold") {
+    if let Some(d) = part(&a.0, &b.0, if a.1.is_some() { "cold" } else { "store" }) {
         return Some(d);
     }
     match (&a.1, &b.1) {
@@ -1563,6 +1576,27 @@ fn exec_repair(variant: &str, seed: u64) -> String {
         sc.h.be.del_raw(FileType::Pack, &victim);
         if let Some(hot) = &sc.h.hot {
             hot.del_raw(FileType::Pack, &victim);
+        }
+    }
+    // before any repair: the damaged index is healed in memory by `to_indexed_checked` (headers of unlisted / wrongly listed packs are
+    // read) — every snapshot reads back through it, the reads obey the header rule, and nothing is written
+    if which != "lostpack" {
+        let before = stores_of(&sc.h);
+        _ = take_pack_reads(&sc.h);
+        let res = read_all_checked(&sc);
+        // blob reads are in the record too: the header rule is evaluated on the reads of the pack TRAILER only
+        let reads: Vec<repo::PRead> = take_pack_reads(&sc.h)
+            .into_iter()
+            .filter(|r| sc.h.be.get(FileType::Pack, &r.id).is_some_and(|b| u64::from(r.offset) + u64::from(r.length) + 4 >= b.len() as u64 && types.get(&r.id) == Some(&false)))
+            .collect();
+        if let Err(e) = header_reads_rule(&reads, &types) {
+            return e;
+        }
+        if let Err(e) = res {
+            return e;
+        }
+        if let Some(d) = stores_diff(&before, &stores_of(&sc.h)) {
+            return format!("oracle-fail:checked-index-load-changed-storage:{d}");
         }
     }
     let opts = RepairIndexOptions::default().read_all(readall);
